@@ -179,7 +179,14 @@ impl Lowerer<'_> {
             TyRef::U8,
             Value::Discriminant(examinee.clone()),
         );
-        let default_branch = if !default_branches.is_empty() {
+        // The default case of the switch is only reachable when some variant
+        // has no case of its own. When every variant has one (each of those
+        // chains already contains the `_` arms), a default case would be
+        // dead code, and if all its `_` arms are guarded it would even end
+        // in a jump to a block that does not exist.
+        let needs_default = !default_branches.is_empty()
+            && all_discriminants.len() < variants.len();
+        let default_branch = if needs_default {
             Some(default_lbl)
         } else {
             None
@@ -212,7 +219,7 @@ impl Lowerer<'_> {
             );
         }
 
-        if !default_branches.is_empty() {
+        if needs_default {
             self.match_case(
                 examinee,
                 examinee_ty_ref,
